@@ -110,4 +110,226 @@ theorem batchStage_proceed_no_touch {id : Ident} {acps : List AcpModify} {ag : L
     all_goals first | exact absurd h (by decide) | skip
     all_goals simp_all
 
+/-! ### `Base::pre_create_transform` -/
+
+theorem validateUuid_some {l : Option (List Nat)} {u : Nat} (h : validateUuid l = some u) :
+    l = some [u] := by
+  unfold validateUuid at h
+  split at h
+  · simp_all
+  · simp at h
+
+/-- first loop succeeded: every uuid a request names is the uuid of a candidate of the second loop -/
+theorem assignUuids_ok_mem (fresh : Nat → Nat) :
+    ∀ (cands : List Cand) (k : Nat) (l : List (Nat × List Nat)),
+      assignUuids fresh k cands = .ok l →
+      ∀ c ∈ cands, ∀ us, c.uuids = some us → ∀ u ∈ us, ∃ cls, (u, cls) ∈ l := by
+  intro cands
+  induction cands with
+  | nil => intro k l _ c hc; simp at hc
+  | cons c0 rest ih =>
+    intro k l h c hc us hus u hu
+    unfold assignUuids at h
+    simp only at h
+    split at h
+    · -- no uuid: fresh
+      rename_i hnone
+      split at h
+      · rename_i l' hrest
+        simp only [Except.ok.injEq] at h
+        subst h
+        rcases List.mem_cons.mp hc with rfl | hc'
+        · rw [hnone] at hus; simp at hus
+        · obtain ⟨cls, hm⟩ := ih (k + 1) l' hrest c hc' us hus u hu
+          exact ⟨cls, List.mem_cons_of_mem _ hm⟩
+      · simp at h
+    · rename_i l0 hsome
+      split at h
+      · simp at h
+      · split at h
+        · simp at h
+        · rename_i u0 hval
+          split at h
+          · rename_i r hrest
+            simp only [Except.ok.injEq] at h
+            subst h
+            have hl0 := validateUuid_some hval
+            rcases List.mem_cons.mp hc with rfl | hc'
+            · rw [hsome] at hus
+              have : us = [u0] := by
+                have := Option.some.inj hus
+                have h2 := Option.some.inj hl0
+                rw [← this, h2]
+              subst this
+              have : u = u0 := by simpa using hu
+              subst this
+              exact ⟨_, List.mem_cons_self⟩
+            · obtain ⟨cls, hm⟩ := ih k r hrest c hc' us hus u hu
+              exact ⟨cls, List.mem_cons_of_mem _ hm⟩
+          · simp at h
+
+/-- every candidate of the second loop is a request's uuid or a fresh one -/
+theorem assignUuids_ok_origin (fresh : Nat → Nat) :
+    ∀ (cands : List Cand) (k : Nat) (l : List (Nat × List Nat)),
+      assignUuids fresh k cands = .ok l →
+      ∀ p ∈ l, (∃ j, p.1 = fresh j) ∨ (∃ c ∈ cands, c.uuids = some [p.1]) := by
+  intro cands
+  induction cands with
+  | nil =>
+    intro k l h p hp
+    unfold assignUuids at h
+    simp only [Except.ok.injEq] at h
+    subst h; simp at hp
+  | cons c0 rest ih =>
+    intro k l h p hp
+    unfold assignUuids at h
+    simp only at h
+    split at h
+    · split at h
+      · rename_i l' hrest
+        simp only [Except.ok.injEq] at h
+        subst h
+        rcases List.mem_cons.mp hp with rfl | hp'
+        · exact Or.inl ⟨k, rfl⟩
+        · rcases ih (k + 1) l' hrest p hp' with hj | ⟨c, hc, hcu⟩
+          · exact Or.inl hj
+          · exact Or.inr ⟨c, List.mem_cons_of_mem _ hc, hcu⟩
+      · simp at h
+    · rename_i l0 hsome
+      split at h
+      · simp at h
+      · split at h
+        · simp at h
+        · rename_i u0 hval
+          split at h
+          · rename_i r hrest
+            simp only [Except.ok.injEq] at h
+            subst h
+            have hl0 := validateUuid_some hval
+            rcases List.mem_cons.mp hp with rfl | hp'
+            · refine Or.inr ⟨c0, List.mem_cons_self, ?_⟩
+              rw [hsome]; exact hl0
+            · rcases ih k r hrest p hp' with hj | ⟨c, hc, hcu⟩
+              · exact Or.inl hj
+              · exact Or.inr ⟨c, List.mem_cons_of_mem _ hc, hcu⟩
+          · simp at h
+
+theorem createRangeCmp_iff (u : Nat) :
+    createRangeCmp u dynamicRangeMinimum = true ↔ u < dynamicRangeMinimum := by
+  simp [createRangeCmp]
+
+/-- second loop, non-internal identity: the flag is sticky and set by every uuid in the range;
+the uuids are passed on unchanged -/
+theorem rangeLoop_user :
+    ∀ (l : List (Nat × List Nat)) (seen : List Nat) (flag : Bool)
+      (l' : List (Nat × List Nat)) (s : List Nat) (f : Bool),
+      rangeLoop false l seen flag = .ok (l', s, f) →
+      l'.map (·.1) = l.map (·.1) ∧
+      (f = true ↔ (flag = true ∨ ∃ p ∈ l, p.1 < dynamicRangeMinimum)) := by
+  intro l
+  induction l with
+  | nil =>
+    intro seen flag l' s f h
+    unfold rangeLoop at h
+    simp only [Except.ok.injEq, Prod.mk.injEq] at h
+    obtain ⟨rfl, rfl, rfl⟩ := h
+    simp
+  | cons p rest ih =>
+    intro seen flag l' s f h
+    obtain ⟨u, cls⟩ := p
+    unfold rangeLoop at h
+    simp only at h
+    split at h
+    · simp at h
+    · split at h
+      · rename_i l2 s2 f2 hrest
+        simp only [Except.ok.injEq, Prod.mk.injEq] at h
+        obtain ⟨rfl, rfl, rfl⟩ := h
+        obtain ⟨hmap, hflag⟩ := ih _ _ _ _ _ hrest
+        refine ⟨by simp [hmap], ?_⟩
+        rw [hflag]
+        have hset : createRangeFlagSet = true := by decide
+        by_cases hu : u < dynamicRangeMinimum
+        · have : createRangeCmp u dynamicRangeMinimum = true := (createRangeCmp_iff u).mpr hu
+          simp [this, hset, hu]
+        · have : createRangeCmp u dynamicRangeMinimum = false := by
+            cases hc : createRangeCmp u dynamicRangeMinimum with
+            | false => rfl
+            | true => exact absurd ((createRangeCmp_iff u).mp hc) hu
+          simp [this, hu]
+      · simp at h
+
+theorem zero_mem_postLoopChecks : 0 ∈ createPostLoopChecks := by decide
+
+theorem postLoopChecks_flag (seen db : List Nat) :
+    ∀ checks : List Nat, 0 ∈ checks → postLoopChecks seen db true checks ≠ none := by
+  intro checks
+  induction checks with
+  | nil => intro h; simp at h
+  | cons c rest ih =>
+    intro h
+    unfold postLoopChecks
+    by_cases hc : c = 0
+    · subst hc; simp
+    · have hr : 0 ∈ rest := by
+        rcases List.mem_cons.mp h with h0 | h0
+        · exact absurd h0.symm hc
+        · exact h0
+      simp only
+      split
+      · simp
+      · exact ih hr
+
+/-- `Base::pre_create_transform` for a non-internal identity: accepted ⇒ no uuid of the request is
+below `DYNAMIC_RANGE_MINIMUM_UUID`, and every resulting uuid is one of the request or a fresh one
+— and all of them are at or above the minimum. -/
+theorem base_ok_user {fresh : Nat → Nat} {db : List Nat} {cands : List Cand}
+    {l : List (Nat × List Nat)} (h : basePreCreateTransform false fresh db cands = .ok l) :
+    (∀ p ∈ l, dynamicRangeMinimum ≤ p.1) ∧
+    (∀ c ∈ cands, ∀ us, c.uuids = some us → ∀ u ∈ us, dynamicRangeMinimum ≤ u) := by
+  unfold basePreCreateTransform at h
+  split at h
+  · simp at h
+  · rename_i l1 h1
+    split at h
+    · simp at h
+    · rename_i l2 seen flag h2
+      split at h
+      · simp at h
+      · rename_i h3
+        simp only [Except.ok.injEq] at h
+        subst h
+        obtain ⟨hmap, hflag⟩ := rangeLoop_user _ _ _ _ _ _ h2
+        have hf : flag = false := by
+          cases hfl : flag with
+          | false => rfl
+          | true =>
+            rw [hfl] at h3
+            exact absurd h3 (postLoopChecks_flag seen db _ zero_mem_postLoopChecks)
+        have hall : ∀ p ∈ l1, dynamicRangeMinimum ≤ p.1 := by
+          intro p hp
+          cases Nat.lt_or_ge p.1 dynamicRangeMinimum with
+          | inl hlt =>
+            have : flag = true := hflag.mpr (Or.inr ⟨p, hp, hlt⟩)
+            rw [hf] at this; simp at this
+          | inr hge => exact hge
+        constructor
+        · intro p hp
+          have : p.1 ∈ l2.map (·.1) := List.mem_map.mpr ⟨p, hp, rfl⟩
+          rw [hmap] at this
+          obtain ⟨q, hq, hqe⟩ := List.mem_map.mp this
+          rw [← hqe]; exact hall q hq
+        · intro c hc us hus u hu
+          obtain ⟨cls, hm⟩ := assignUuids_ok_mem fresh cands 0 l1 h1 c hc us hus u hu
+          exact hall (u, cls) hm
+
+theorem runPreCreateTransform_eq (internal : Bool) (fresh : Nat → Nat) (db : List Nat)
+    (cands : List Cand) :
+    runPreCreateTransform internal fresh db cands = basePreCreateTransform internal fresh db cands := by
+  unfold runPreCreateTransform
+  have : runPreCreateTransformBase.isSome = true := by decide
+  cases h : runPreCreateTransformBase with
+  | none => rw [h] at this; simp at this
+  | some _ => rfl
+
 end Kanidm.BaseProtect
